@@ -104,6 +104,12 @@ def format_value(ex, val, spec, conversion=-1):
         # IntEnum.__format__ is int.__format__ on CPython >= 3.11 (conformance-tested)
         used("format(IntEnum member) == format(int value)")
         val = val.value
+    from .values import CondV
+
+    if isinstance(val, CondV):
+        a = format_value(ex, val.a, spec, conversion)
+        b = format_value(ex, val.b, spec, conversion)
+        return Sym(z3.If(val.c, term(a), term(b)), "str")
     if isinstance(val, bool) and spec == "":
         return "True" if val else "False"
     if isinstance(val, FloatQ) or (isinstance(val, Fraction) and not isinstance(val, int)):
@@ -281,6 +287,8 @@ def iter_view_special(ex, v):
             n, at = ops.iter_view(ex, m.keyseq)
             return n, (lambda i: SeqV.of("tuple", [at(i), m.fn(at(i))]))
         raise Unsupported("items() of a functional map without key order")
+    if isinstance(v, Obj) and "__records__" in v.fields:
+        return ops.iter_view(ex, v.fields["__records__"])
     if isinstance(v, NdEnumV):
         a = v.arr
         if isinstance(a, Arr2V) and isinstance(a.rows, int) and isinstance(a.cols, int):
@@ -573,6 +581,19 @@ def b_len(ex, v):
         return Sym(z3.Length(v.t), "int")
     if isinstance(v, SetV):
         return len(v.items)
+    if isinstance(v, OutsideV):
+        items = v.seq.concrete_items()
+        acc = 0
+        for i, x in enumerate(items):
+            out = ops.compare(ex, "not in", x, ops.ops_Range(v.lo, v.hi))
+            first = True
+            for y in items[:i]:
+                first = ops.and_(ex, first, ops.compare(ex, "!=", x, y))
+            c = ops.and_(ex, out, first)
+            acc = ops.binop(ex, "+", acc, (1 if c else 0) if isinstance(c, bool) else ops.ite(ex, unwrap_bool(c), 1, 0))
+        return acc
+    if isinstance(v, SymSetV):
+        raise Unsupported("len of a symbolic set")
     if isinstance(v, MapV):
         if v.is_concrete():
             # keys may be symbolic but were deduplicated on insertion
@@ -793,7 +814,15 @@ def b_round(ex, x, nd=None):
             return FloatQ(Fraction(r)) if nd is not None else r
         return round(x, nd) if nd is not None else round(x)
     if nd is None:
-        raise Unsupported("round() to int of symbolic")
+        if num_kind(x) == "int":
+            return x
+        used("round(x): nearest integer, ties to even")
+        xt = term(x, "real")
+        k = z3.Int(ex.p.fresh_name("round"))
+        kr = z3.ToReal(k)
+        half = z3.RealVal(1) / 2
+        ex.p.assume(z3.And(kr - half <= xt, xt <= kr + half, z3.Implies(z3.Or(xt == kr + half, xt == kr - half), k % 2 == 0)))
+        return Sym(k, "int")
     return round_real(ex, x, nd)
 
 
@@ -1176,10 +1205,21 @@ def call_method(ex, recv, name, args, kw):
             return recv.groups[args[0]]
     if isinstance(recv, RangeSetV) and name == "difference":
         return RangeDiffV(recv.lo, recv.hi, args[0])
+    if isinstance(recv, SymSetV) and name == "difference" and isinstance(args[0], RangeSetV):
+        return OutsideV(recv.seq, args[0].lo, args[0].hi)
+    if isinstance(recv, SetV) and name == "difference" and isinstance(args[0], RangeSetV):
+        return OutsideV(SeqV.of("list", recv.items), args[0].lo, args[0].hi)
     r = method_special(ex, recv, name, args, kw)
     if r is not NOATTR:
         return r
     raise Unsupported(f"method {name} on {type(recv).__name__}")
+
+
+class OutsideV:
+    """set(xs).difference(set(range(lo, hi))) for symbolic xs: the members of xs outside [lo, hi)."""
+
+    def __init__(self, seq, lo, hi):
+        self.seq, self.lo, self.hi = seq, lo, hi
 
 
 class RangeDiffV:
@@ -1205,6 +1245,9 @@ def seq_method(ex, v: SeqV, name, args, kw):
         return flatten(ex, v, order)
     if name == "copy":
         return v.copy()
+    if name == "clear":
+        v.segs = []
+        return None
     if name == "astype":
         return v.copy()
     if name == "tolist":
@@ -1477,6 +1520,8 @@ def fancy_index(ex, v: SeqV, idx: SeqV):
 def getitem_special(ex, v, idx):
     if isinstance(v, RowPrefix):
         raise Unsupported("subscript of row prefix")
+    if isinstance(v, Obj) and "__records__" in v.fields:
+        return ops.getitem(ex, v.fields["__records__"], idx)
     return NOATTR
 
 
@@ -1517,6 +1562,14 @@ def str_method(ex, s, name, args, kw):
             parts.append(it)
         return join_str_parts(ex, parts)
     if isinstance(s, Sym) and s.ty == "str":
+        if name == "strip" and not args:
+            used("str.strip(): a substring of the original (no new characters), empty iff the original is all whitespace")
+            f = z3.Function("str_strip", z3.StringSort(), z3.StringSort())
+            r = f(s.t)
+            ex.p.assume(z3.And(z3.Contains(s.t, r), z3.Length(r) <= z3.Length(s.t)))
+            return Sym(r, "str")
+        if name == "split" and len(args) == 1 and args[0] == "\n":
+            return split_lines(ex, s)
         if name == "lower":
             used("str.lower(): uninterpreted, idempotent")
             f = z3.Function("str_lower", z3.StringSort(), z3.StringSort())
@@ -1542,6 +1595,53 @@ class MatchV:
 
 
 WELL_RE = r"^([a-zA-Z]+?)(\d+?)$"
+
+
+def split_lines(ex, s):
+    """s.split("\\n") for a string built as a ++ "\\n" ++ b ++ ... from pieces that provably contain no "\\n"."""
+    t = s.t
+    pieces = []
+    if z3.is_app(t) and t.decl().kind() == z3.Z3_OP_SEQ_CONCAT:
+        flat = []
+
+        def fl(x):
+            if z3.is_app(x) and x.decl().kind() == z3.Z3_OP_SEQ_CONCAT:
+                for c in x.children():
+                    fl(c)
+            else:
+                flat.append(x)
+
+        fl(t)
+    else:
+        flat = [t]
+    cur = []
+    groups = []
+    for x in flat:
+        if z3.is_string_value(x) and x.as_string() == "\n":
+            groups.append(cur)
+            cur = []
+        else:
+            cur.append(x)
+    groups.append(cur)
+    nl = z3.StringVal("\n")
+    for g in groups:
+        for x in g:
+            ex.p.solver.push()
+            ex.p.solver.add(z3.Contains(x, nl))
+            r = ex.p.solver.check()
+            ex.p.solver.pop()
+            if r != z3.unsat:
+                raise Unsupported("str.split('\\n') of a string that may contain further line breaks")
+    used("str.split('\\n') of newline-free pieces joined by '\\n': the pieces")
+    out = []
+    for g in groups:
+        if not g:
+            out.append("")
+        elif len(g) == 1:
+            out.append(Sym(g[0], "str"))
+        else:
+            out.append(Sym(z3.Concat(*g), "str"))
+    return SeqV.of("list", out)
 
 
 def regex_method(ex, rx: RegexV, name, args, kw):
@@ -1571,6 +1671,10 @@ def regex_method(ex, rx: RegexV, name, args, kw):
 
 
 def obj_attr(ex, o: Obj, attr):
+    if "__records__" in o.fields and attr in ("append", "clear", "extend", "copy", "index", "pop"):
+        from .engine import LibMethod
+
+        return LibMethod(o.fields["__records__"], attr)
     return NOATTR
 
 
